@@ -50,7 +50,7 @@ func (a *AcctInfo) Path() string { return a.Wallet + "/" + a.Name }
 
 // Fixture holds the wallets (expensive to create) shared by all instances of a run.
 type Fixture struct {
-	Store    e2wtypes.Store
+	Stores   []e2wtypes.Store // one scratch store per wallet (the scratch store is not safe for concurrent writers)
 	Accounts []*AcctInfo
 	Fetcher  fetcher.Service // shared in-memory fetcher (accounts stay unlocked across instances)
 }
@@ -70,9 +70,8 @@ func initBLS() {
 // when withLocked, an account "Locked" in the last wallet whose passphrase is not configured.
 func NewFixture(ctx context.Context, nWallets, perWallet int, withLocked bool) (*Fixture, error) {
 	initBLS()
-	store := scratch.New()
 	enc := keystorev4.New()
-	fx := &Fixture{Store: store}
+	fx := &Fixture{}
 	keys := append(append([][]byte{}, daemon.Wallet1Keys...), daemon.Wallet2Keys...)
 	for i := len(keys); i < nWallets*perWallet+1; i++ {
 		h := sha256.Sum256([]byte(fmt.Sprintf("verif key %d", i)))
@@ -90,6 +89,8 @@ func NewFixture(ctx context.Context, nWallets, perWallet int, withLocked bool) (
 	id := 1
 	for w := 0; w < nWallets; w++ {
 		wname := fmt.Sprintf("Wallet %d", w+1)
+		store := scratch.New()
+		fx.Stores = append(fx.Stores, store)
 		wallet, err := nd.CreateWallet(ctx, wname, store, enc)
 		if err != nil {
 			return nil, err
@@ -137,7 +138,7 @@ func NewFixture(ctx context.Context, nWallets, perWallet int, withLocked bool) (
 	for err := range errs {
 		return nil, err
 	}
-	memf, err := memfetcher.New(ctx, memfetcher.WithStores([]e2wtypes.Store{store}), memfetcher.WithEncryptor(keystorev4.New()))
+	memf, err := memfetcher.New(ctx, memfetcher.WithStores(fx.Stores), memfetcher.WithEncryptor(keystorev4.New()))
 	if err != nil {
 		return nil, err
 	}
